@@ -11,6 +11,7 @@ CONSTANTS
   Tmo = {0, 2}
   Horizon = 0
   AllowFaults = FALSE
+  OpenGarbage = FALSE
   AdapterErrors = FALSE
   AllowCancel = FALSE
   AllowStall = FALSE
